@@ -15,7 +15,7 @@ unsigned G_cbce_calls;
 #endif
 
 int gmssl_secure_memcmp(const volatile void * volatile in_a, const volatile void * volatile in_b, size_t len)
-REQUIRES(len == 0 || (RD_OK((size_t)in_a, len) && RD_OK((size_t)in_b, len)))
+REQUIRES(len == 0 || (RD_OK((const void *)in_a, len) && RD_OK((const void *)in_b, len)))
 ASSIGNS(G_scmp_last, G_scmp_n, G_scmp_a, G_scmp_b, G_scmp_calls)
 ENSURES(G_scmp_last == RET && G_scmp_n == len && G_scmp_a == (size_t)in_a && G_scmp_b == (size_t)in_b && G_scmp_calls == OLD(G_scmp_calls) + 1)
 ;
